@@ -49,7 +49,7 @@ from ..common import carr_lit, rarr_lit
 ID = 'C13'
 TRUSTED = ['numpy.linalg.eigh is an oracle in the correspondence check: its output is validated per case in interval '
            'arithmetic on the Hamiltonians divided by a power of two s with |H|max/s in [1,2) '
-           '((H/s) V = V (D/s) and V^dagger V = 1 within 1e-11*|H|max/s), so the validation is relative to |H|max at every time unit',
+           '((H/s) V = V (D/s) and V^dagger V = 1 within 1e-11*|H|max/s, H/s computed in Coq by the model function hamiltonian), so the validation is relative to |H|max at every time unit',
            'floating-point rounding of the implementation is absorbed in the comparison tolerances (1e-8 of the largest entry '
            'against the model; 1e-9 of the largest entry in the metamorphic relations plus the derived bound for entries in '
            'the small-denominator window), not proved',
@@ -669,20 +669,27 @@ def sweep(r, nbases, thorough, failures, classes, nontriv, stats, samples, make_
 
 
 # ------------------------------------------------------------------------------------------ correspondence (scaled pulses)
+HEADER13 = emit.HEADER + "From FF Require Import Model.Hamiltonian.\n"
+
+
 def coq_case(name, q, om, B, F, big):
-    """as c01.coq_case; the eigh oracle is validated on H/s, ev/s with s a power of two, |H|max/s in [1,2)"""
+    """as c01.coq_case; the eigh oracle is validated on H/s, ev/s with s a power of two, |H|max/s in [1,2);
+    H/s is computed INSIDE Coq by the model's `hamiltonian` (Model/Hamiltonian.v, einsum 'ijk,il->ljk') from the
+    pulse's control operators and coefficients/s, so that model function is tied to the implementation's eigh data too"""
     scaleB = max(np.abs(B).max(), 1e-300)
     scaleF = max(np.abs(F).max(), 1e-300)
     Hs = np.einsum('ijk,il->ljk', q.c_opers, q.c_coeffs)
     hmax = float(np.abs(Hs).max())
     s = 2.0 ** np.floor(np.log2(hmax)) if hmax > 0 else 1.0
-    Hn, evn = Hs / s, np.asarray(q.eigvals) / s
-    if not (np.array_equal(Hn * s, Hs) and np.array_equal(evn * s, np.asarray(q.eigvals))):
+    ccn, evn = np.asarray(q.c_coeffs, dtype=float) / s, np.asarray(q.eigvals) / s
+    if not (np.array_equal(ccn * s, np.asarray(q.c_coeffs, dtype=float)) and np.array_equal(evn * s, np.asarray(q.eigvals))):
         raise ValueError('power-of-two normalisation of H is not exact')
     tol_eig = 1e-11 * max(1.0, hmax / s)
     na, nk, no = B.shape
     return (f"Definition {name} : N*N*N :=\n" + emit.pulse_bindings(q, om, big) +
-            f"  let Hn := rmats O {carr_lit(Hn)}%Z in\n"
+            f"  let cops := rmats O {carr_lit(np.asarray(q.c_opers))}%Z in\n"
+            f"  let ccn := rvecs O {rarr_lit(ccn)}%Z in\n"
+            f"  let Hn := map (fun l => hamiltonian O {q.d} cops ccn l) (seq 0 {len(q.dt)}) in\n"
             f"  let evn := rvecs O {rarr_lit(evn)}%Z in\n"
             f"  let thr := dy O foi_thr in\n"
             f"  let Bm := model_cm O {q.d} thr ev Vs om bs ns nc dts in\n"
@@ -724,11 +731,11 @@ def correspondence(ctx, failures, classes, nontriv):
         if np.any(B != 0):
             nontriv.add(key)
     defs = [('c%d' % i, coq_case('c%d' % i, q, om, B, F, False)) for i, (q, om, B, F, _) in enumerate(cases)]
-    res = ctx.eval_tallies(emit.HEADER, defs, per_file=2)
+    res = ctx.eval_tallies(HEADER13, defs, per_file=2)
     redo = [i for i, x in enumerate(res) if x is None or x[1] > 0]
     if redo:
         defs2 = [('c%d' % i, coq_case('c%d' % i, cases[i][0], cases[i][1], cases[i][2], cases[i][3], True)) for i in redo]
-        res2 = ctx.eval_tallies(emit.HEADER, defs2, per_file=1)
+        res2 = ctx.eval_tallies(HEADER13, defs2, per_file=1)
         for i, x in zip(redo, res2):
             if x is not None:
                 res[i] = x
@@ -785,7 +792,7 @@ def replay(ctx, rep):
         q, B, F = corr_observe(spec, om)
         if not (np.isfinite(B).all() and np.isfinite(F).all()):
             return False, 'replay reproduces: NaN or infinity in the control matrix of the rescaled pulse'
-        res = ctx.eval_tallies(emit.HEADER, [('c0', coq_case('c0', q, om, B, F, True))], per_file=1)
+        res = ctx.eval_tallies(HEADER13, [('c0', coq_case('c0', q, om, B, F, True))], per_file=1)
         if res[0] is None:
             return False, 'replay reproduces: Coq evaluation of the model failed (%s)' % (ctx.notes[-1][-200:] if ctx.notes else '')
         if res[0][2] > 0:
